@@ -185,6 +185,40 @@ def Chan.run (cap : Nat) (c : Chan) : List Step → Chan
 
 def Chan.done (c : Chan) : Bool := c.todo.isEmpty && c.queue.isEmpty
 
+/-! ### life cycle of the client-level dumper -/
+
+/-- What matters about a live `*dump.Dumper`: does `DumpTo` queue (`Async()` of its current
+options) and is a `Start` loop running on its channel. -/
+structure DumperSt where
+  async : Bool
+  started : Bool
+  deriving DecidableEq, Repr
+
+/-- Operations a caller can apply to a client, in any order, between requests. -/
+inductive LifeOp
+  | set (async : Bool)   -- SetCommonDumpOptions(opt) + EnableDumpAll(): new dumper, or new options on the live one
+  | asyncAll             -- EnableDumpAllAsync(): flips Async in the options the live dumper follows
+  | disable              -- DisableDumpAll()
+  | clone                -- Client.Clone(): Transport.Clone → Options.Clone → Dump.Clone(); go Start()
+  deriving DecidableEq, Repr
+
+/-- `Transport.EnableDump` and `Options.Clone` always launch `go dump.Start()`, whatever the
+options say at that moment — they can change afterwards (`SetOptions`, in-place edits). -/
+def lifeStep : Option DumperSt → LifeOp → Option DumperSt
+  | none, .set a => some ⟨a, true⟩
+  | some d, .set a => some { d with async := a }
+  | none, .asyncAll => some ⟨true, true⟩
+  | some d, .asyncAll => some { d with async := true }
+  | _, .disable => none
+  | none, .clone => none
+  | some d, .clone => some ⟨d.async, true⟩
+
+def lifeRun (ops : List LifeOp) : Option DumperSt := ops.foldl lifeStep none
+
+/-- A dumper delivers what `DumpTo` is given iff it writes synchronously or a `Start` loop
+drains its channel (`async_alternating_drains` / `unstarted_async_writes_nothing`). -/
+def DumperSt.delivers (d : DumperSt) : Bool := !d.async || d.started
+
 /-! ### pass-through wrappers -/
 
 /-- Result of one `Write`/`Read` call on the wrapped object: byte count and error code
